@@ -74,3 +74,22 @@ Theorem C01_system_complete : forall (A : Type) cmax W ls (s : pst A),
   prun cmax (p_init A W) ls = Some s -> p_cur s = None -> p_wire s = [] -> p_rq s = [] -> p_delivered s = p_submitted s.
 Proof. exact system_complete_when_drained. Qed.
 Print Assumptions C01_system_complete.
+
+(* nested tunnels: an inner stream whose carrier is a stream of an outer tunnel (any framing of
+   inner frames as outer messages that can be decoded again, any chunk limits and windows at both
+   levels, any interleaving of all parties of both levels) delivers exactly what a stream on a
+   plain carrier delivers *)
+From GT Require Import Nested NestedProofs.
+Theorem C01_nested_prefix : forall (A B : Type) (enc : dframe A -> list B) (dec : list B -> option (dframe A)),
+  (forall f, dec (enc f) = Some f) ->
+  forall cmaxI WI cmaxO WO ls (n : nst A B), nrun enc dec cmaxI cmaxO (n_init A B WI WO) ls = Some n ->
+  prefix (p_delivered (n_in n)) (p_submitted (n_in n)).
+Proof. exact nested_delivered_prefix. Qed.
+Print Assumptions C01_nested_prefix.
+
+Theorem C01_nested_complete : forall (A B : Type) (enc : dframe A -> list B) (dec : list B -> option (dframe A)),
+  (forall f, dec (enc f) = Some f) ->
+  forall cmaxI WI cmaxO WO ls (n : nst A B), nrun enc dec cmaxI cmaxO (n_init A B WI WO) ls = Some n ->
+  p_cur (n_in n) = None -> n_fl n = [] -> p_rq (n_in n) = [] -> p_delivered (n_in n) = p_submitted (n_in n).
+Proof. exact nested_complete_when_drained. Qed.
+Print Assumptions C01_nested_complete.
